@@ -203,6 +203,14 @@ def run(chk):
         if gt.well_conditioned(m1, Xg) and not (close(m1.means, m2.means) and close(m1.variances, m2.variances) and close(m1.weights, m2.weights)):
             chk.fail("GMM training depends on the order of the samples", {"X": hexlist(Xg), "perm": [int(a) for a in pg]})
         # ISV / JFA: sample order and class-id permutations
+        if rd % 2 == 1:
+            # one session without any frame, placed FIRST among the sessions of its class (so that the order of the samples matters to
+            # any code that drops or skips it)
+            from ..impl import GMMStats as _GS
+            Cz_, Dz_ = np.asarray(ubm.means).shape
+            stats = list(stats)
+            first_of_0 = int(np.flatnonzero(np.asarray(y) == y[0])[0])
+            stats[first_of_0] = _GS(Cz_, Dz_)
         ps = g.permutation(len(stats))
         cp = g.permutation(3)
         for kind in ("isv", "jfa"):
